@@ -298,3 +298,16 @@ def helper_purity(ctx, prog, rule_id: str):
                 ctx.fail(fn, st, f"{fn.short}() writes into an array it received ({what}): its callers keep using that array (bounds, incumbent, candidate matrix) and now see it modified", construct=f"in-place write through a parameter: {what[:50]}")
         else:
             ctx.ok(fn, fn.node, f"{fn.short} leaves its array arguments untouched")
+
+
+def leaf_definitions(prog, fn, name: str, at, depth: int = 0) -> List[ast.AST]:
+    """definitions of the local ``name`` that may reach ``at``, followed through plain name-to-name copies
+    (``a = b`` with several definitions of ``b``): the expressions that actually compute the value."""
+    out = []
+    for d in reaching_assignments(prog, fn, name, at):
+        if isinstance(d, ast.Name) and depth < 4 and d.id != name and d.id not in fn.params:
+            sub = leaf_definitions(prog, fn, d.id, d, depth + 1)
+            out += sub if sub else [d]
+        else:
+            out.append(d)
+    return out
